@@ -115,7 +115,7 @@ VERIF_MOD = Raw("""
 #[verifier::external_body] pub fn hole_bool() -> bool { unimplemented!() }
 """, module="verif")
 
-def node_specs(ty, prefix, fields, cfg=""):
+def node_specs(ty, prefix, fields, cfg="", rest=False):
     """assumed specifications for the getters and builders of a full_moon node.
     fields: (name, rust type, kind) with kind in
        'ref'      tracked, getter returns &T            builder takes T
@@ -125,11 +125,14 @@ def node_specs(ty, prefix, fields, cfg=""):
        'w:<name>' builder only (untracked), named with_<name>"""
     tracked = [(f[0], f[1], f[2]) for f in fields if f[2] in ("ref", "opt")]
     out = []
+    if rest:
+        # everything the table does not track, as one opaque value: a builder leaves it alone
+        out.append(f"{cfg}pub uninterp spec fn {prefix}_rest(n: &{ty}) -> int;")
     for n, t, k in tracked:
         st = t if k == "ref" else f"Option<{t}>"
         out.append(f"{cfg}pub uninterp spec fn {prefix}_{n}(n: &{ty}) -> {st};")
     def same(but=None):
-        return ", ".join(f"{prefix}_{n}(&r) == {prefix}_{n}(&n)" for n, _, _ in tracked if n != but) or "true"
+        return ", ".join([f"{prefix}_{n}(&r) == {prefix}_{n}(&n)" for n, _, _ in tracked if n != but] + ([f"{prefix}_rest(&r) == {prefix}_rest(&n)"] if rest else [])) or "true"
     for f in fields:
         n, t, k = f[:3]
         wn = f[3] if len(f) > 3 else "with_" + n        # the builder's name, where it is not with_<getter>
